@@ -38,6 +38,9 @@ FLOORS = {"quick": {"pipelines": 1500, "elements_checked": 5000, "packets_throug
                        "el_RR": 2000, "el_WRR": 2000, "el_FlowDemux": 1000, "el_FIBDemux": 1000,
                        "el_SimplePacketSwitch": 1000, "el_FairPacketSwitch": 1000}}
 KEYS = tuple(FLOORS["quick"].keys()) + ("table_reconfigurations", "stray_flow_cases", "stray_packets_refused")
+# floors for the situations added with the later rounds of seeded changes (evidence that they were really exercised)
+FLOORS["quick"].update({'stray_packets_refused': 400})
+FLOORS["thorough"].update({'stray_packets_refused': 2000})
 SINGLE = ["Port", "Wire", "TokenBucket", "TwoRateTokenBucket", "SP", "WFQ", "VC", "DRR", "RR", "WRR", "Port", "Wire"]
 FAN = ["FlowDemux", "FIBDemux", "SimplePacketSwitch", "FairPacketSwitch"]
 
